@@ -150,6 +150,11 @@ def step (line : String) : String :=
     let e := expr! e
     let items := items! its
     s!"bm={showBm (bitmapApply (buildIndex items) e)} ks={evalKeys e items}"
+  | ["EVAL", e, its, _faults] =>
+    -- the index file written through transient write failures: a save that reports success wrote the whole file
+    let e := expr! e
+    let items := items! its
+    s!"bm={showBm (bitmapApply (buildIndex items) e)} ks={evalKeys e items}"
   | ["EVALIDX", e, idx] => s!"bm={showBm (bitmapApply (index! idx) (expr! e))}"
   | ["KNIL", e] =>
     match keysApply none (expr! e) with
